@@ -159,6 +159,11 @@ func looseSelector(t *rapid.T, f *gen.Func, state []reflect.Value, o gen.Opt, la
 		return sel, false
 	}
 	sel = reflect.New(f.SelectorsType)
+	if rapid.IntRange(0, 5).Draw(t, label+".empty?") == 0 {
+		// a selector that is present but names nothing ("...ListDataSelectors":{}): no element
+		// disagrees with any item, so it selects every item
+		return sel, true
+	}
 	var donor reflect.Value
 	if len(state) > 0 && rapid.IntRange(0, 3).Draw(t, label+".donor?") != 0 {
 		donor = state[rapid.IntRange(0, len(state)-1).Draw(t, label+".donor")]
